@@ -144,6 +144,30 @@ class WinShape(Shape):
         return "win(%s%s)" % (self.base, ",str" if self.is_str else "")
 
 
+class AnyStrShape(Shape):
+    """any string of the given kind (text / bytes): havoc gives a string over a fresh base"""
+    sorts = ()
+
+    def __init__(self, is_str):
+        self.is_str = is_str
+
+    def accepts(self, v):
+        return isinstance(v, SStr) and (v.is_str == self.is_str or not v.atoms)
+
+    def unpack(self, v):
+        raise Unsupported("AnyStrShape has no scalar decomposition")
+
+    def fresh(self, st, name):
+        from .strops import fresh_str
+        return fresh_str(st, name, self.is_str)
+
+    def __eq__(self, o):
+        return type(o) is AnyStrShape and self.is_str == o.is_str
+
+    def __repr__(self):
+        return "anystr"
+
+
 class TupleShape(Shape):
     def __init__(self, shapes):
         self.shapes = list(shapes)
@@ -250,11 +274,12 @@ class ListShape(Shape):
     def __init__(self, elem):
         self.elem = elem
 
-    def fresh_seq(self, st, name):
+    def fresh_seq(self, st, name, view=True):
         arrays = [z3.Const(fresh_name("%s.a%d" % (name, k)), z3.ArraySort(I, s)) for k, s in enumerate(self.elem.sorts)]
         n = fresh_int(name + ".n")
-        st.assume(n >= 0)
-        seq = SymSeqA(iv(0), n, arrays, self.elem)
+        lo = fresh_int(name + ".lo") if view else iv(0)
+        st.assume(n >= 0, 0 <= lo, lo <= n)
+        seq = SymSeqA(lo, n, arrays, self.elem)
         if self.elem.sorts:
             j = z3.Int("j?ls")
             f = self.elem.facts(seq.elem(j))
@@ -309,10 +334,17 @@ def join_shape(a, b):
         if isinstance(x, ConstShape) and isinstance(x.v, SStr) and x.v.concrete() == b"" and isinstance(y, WinShape) \
                 and y.is_str == x.v.is_str:
             return y
-    if isinstance(a, ConstShape) and isinstance(b, ConstShape):
-        va, vb = a.v, b.v
-        if isinstance(va, SStr) and isinstance(vb, SStr) and va.is_str == vb.is_str:
-            raise Unsupported("join of different literal strings %r / %r (declare a type)" % (va, vb))
+    def strkind(x):
+        if isinstance(x, AnyStrShape):
+            return x.is_str
+        if isinstance(x, WinShape):
+            return x.is_str
+        if isinstance(x, ConstShape) and isinstance(x.v, SStr):
+            return x.v.is_str
+        return None
+    ka, kb = strkind(a), strkind(b)
+    if ka is not None and kb is not None and ka == kb:
+        return AnyStrShape(ka)
     if isinstance(a, TupleShape) and isinstance(b, TupleShape) and len(a.shapes) == len(b.shapes):
         return TupleShape([join_shape(x, y) for x, y in zip(a.shapes, b.shapes)])
     if isinstance(a, IntShape) and isinstance(b, BoolShape) or isinstance(a, BoolShape) and isinstance(b, IntShape):
